@@ -240,19 +240,44 @@ def contour_object(coords, contour="stub", cdtype="float", objkey=None):
     return _Contour(arr, dtype=arr.dtype), "stub"
 
 
+FORMS = ("array", "list", "tuple", "col", "int")
+
+
+def curve_args(case):
+    """the four coordinate sequences in the container the case asks for: float arrays (default), Python lists / tuples,
+    (n, 1) column arrays, integer arrays (whole-number coordinates only)"""
+    arrs = [np.array(case[k], dtype=float) for k in ("x1", "y1", "x2", "y2")]
+    form = case.get("form", "array")
+    if form == "list":
+        return [a.tolist() for a in arrs], form
+    if form == "tuple":
+        return [tuple(a.tolist()) for a in arrs], form
+    if form == "col":
+        return [a.reshape(-1, 1) for a in arrs], form
+    if form == "int":
+        if all(np.all(np.isfinite(a)) and np.all(a == np.floor(a)) and np.abs(a).max(initial=0) < 2 ** 40 for a in arrs):
+            return [a.astype(np.int64) for a in arrs], form
+        return arrs, "array"
+    return arrs, "array"
+
+
 def impl_inter(case):
     from virocon import _intersection as I
 
     x1, y1, x2, y2 = (np.array(case[k], dtype=float) for k in ("x1", "y1", "x2", "y2"))
+    args, form = curve_args(case)
     try:
         with warnings.catch_warnings():
             warnings.simplefilter("ignore")
             ii, jj = I._rectangle_intersection_(x1, y1, x2, y2)
-            x, y = I.intersection(x1, y1, x2, y2)
+            x, y = I.intersection(*args)
+            x, y = np.asarray(x, dtype=float), np.asarray(y, dtype=float)
+            if x.ndim != 1 or y.ndim != 1 or x.shape != y.shape:
+                return {"err": "shape", "msg": f"x {x.shape}, y {y.shape}", "form": form}
     except Exception as e:  # noqa: BLE001
-        return {"err": type(e).__name__, "msg": str(e)[:200]}
+        return {"err": type(e).__name__, "msg": str(e)[:200], "form": form}
     return {"cand": [(int(a), int(b)) for a, b in zip(ii, jj)],
-            "pts": [(float(a), float(b)) for a, b in zip(x, y)]}
+            "pts": [(float(a), float(b)) for a, b in zip(x, y)], "form": form}
 
 
 def _steps_arg(spec):
@@ -1122,6 +1147,15 @@ def sig(entry, predicate):
     return {"entry": entry, "predicate": predicate}
 
 
+def with_forms(rng, cases):
+    """spread the input containers over the generated cases (the corpus keeps plain arrays)"""
+    for case in cases:
+        f = FORMS[int(rng.integers(0, len(FORMS)))] if rng.random() < 0.5 else "array"
+        if f != "array":
+            case["form"] = f
+        yield case
+
+
 def process_inter(ck, cases):
     lines, impls = [], []
     for case in cases:
@@ -1134,6 +1168,7 @@ def process_inter(ck, cases):
         nontrivial = "cands" in mQ and len(mQ["cands"]) >= 1
         ck.case(case, nontrivial=nontrivial)
         ck.count("inter:gen=" + case["gen"])
+        ck.count("inter:form=" + impl.get("form", "array"))
         if "pts" in impl:
             ck.count("inter:points=" + (str(len(impl["pts"])) if len(impl["pts"]) < 3 else "3+"))
         bad = oracle_inter(case, impl)
@@ -1211,7 +1246,9 @@ def process_design(ck, cases):
         bad = oracle_design(coords, spec, swap, impl, mF.get("steps", []))
         # swap_axis == exchanging the two coordinates (metamorphic, on the implementation)
         if "res" in impl:
-            other = impl_design(np.asarray(coords)[:, ::-1], spec, not swap)
+            # (same container, dtype and calling convention: the relation is about swap_axis only; integer coordinates
+            #  give +0.0 where float coordinates give -0.0, numerically equal but not bit-equal)
+            other = impl_design(np.asarray(coords)[:, ::-1], spec, not swap, **design_opts(case))
             if "res" not in other or [(f2b(a), f2b(b)) for a, b in other["res"]] != [(f2b(a), f2b(b)) for a, b in impl["res"]]:
                 bad.append(("swap_equiv", f"swap_axis={swap} differs from swap_axis={not swap} on the exchanged columns: "
                                           f"{impl['res'][:3]} vs {other.get('res', other)!s:.200}"))
@@ -1272,6 +1309,86 @@ def design_case_list(rng, polys, lattice=False):
     return cases
 
 
+def nan_broken_cases(rng, n_cases, max_seg):
+    """curves 'broken with NaNs' (docstring of `intersection`): NaN vertices (either or both coordinates) inserted into
+    random polylines; such a curve is the collection of its NaN-free pieces"""
+    for case in random_pair_cases(rng, n_cases, max_seg):
+        out = {"kind": "inter_nan", "gen": "nanbroken"}
+        for a, b, both in (("x1", "y1", True), ("x2", "y2", rng.random() < 0.5)):
+            x, y = list(case[a]), list(case[b])
+            if both and len(x) >= 3:
+                for _ in range(int(rng.integers(1, 4))):
+                    k = int(rng.integers(0, len(x) + 1))
+                    which = int(rng.integers(0, 3))
+                    x.insert(k, float("nan") if which != 1 else float(rng.normal()))
+                    y.insert(k, float("nan") if which != 0 else float(rng.normal()))
+            out[a], out[b] = x, y
+        yield out
+
+
+def _pieces(x, y):
+    """maximal runs of NaN-free vertices with at least one segment: list of (first vertex index, xs, ys)"""
+    out, start = [], None
+    for k in range(len(x) + 1):
+        good = k < len(x) and not (math.isnan(x[k]) or math.isnan(y[k]))
+        if good and start is None:
+            start = k
+        if not good and start is not None:
+            if k - start >= 2:
+                out.append((start, x[start:k], y[start:k]))
+            start = None
+    return out
+
+
+def process_inter_nan(ck, cases):
+    """correspondence only (no property oracle: the property speaks of polylines): the real `intersection` on the
+    NaN-broken curves against the model run on every pair of NaN-free pieces, candidates re-indexed to the whole curves"""
+    lines, meta, impls = [], [], []
+    for case in cases:
+        impls.append(impl_inter(case))
+        P1, P2 = _pieces(case["x1"], case["y1"]), _pieces(case["x2"], case["y2"])
+        m = []
+        for (o1, xa, ya) in P1:
+            for (o2, xb, yb) in P2:
+                sub = {"x1": xa, "y1": ya, "x2": xb, "y2": yb}
+                lines.append(inter_lines(sub)[1])
+                m.append((o1, o2, sub))
+        meta.append(m)
+    ans = ck.driver.run(lines) if lines else []
+    pos = 0
+    for case, impl, m in zip(cases, impls, meta):
+        stats, bad_model = [], None
+        for (o1, o2, sub) in m:
+            mQ = parse_inter(ans[pos], "Q")
+            pos += 1
+            if "err" in mQ:
+                bad_model = mQ["err"]
+                continue
+            S1, S2 = poly_segs(sub["x1"], sub["y1"]), poly_segs(sub["x2"], sub["y2"])
+            for (i, j, sol, st, tol, exact) in statuses(S1, S2, mQ):
+                stats.append((i + o1, j + o2, sol, st, tol, exact))
+        stats.sort(key=lambda c: (c[0], c[1]))
+        ck.case(case, nontrivial=len(stats) >= 1)
+        ck.count("inter:gen=nanbroken")
+        ck.count("inter:nan_pieces=" + str(min(len(m), 9)) + ("+" if len(m) >= 9 else ""))
+        if bad_model is not None:
+            ck.diverge("intersection_nan_broken", case, f"model error {bad_model}")
+            continue
+        if "err" in impl:
+            ck.diverge("intersection_nan_broken", case, f"implementation raised {impl['err']}: {impl.get('msg')} on NaN-broken curves")
+            continue
+        want = [(c[0], c[1]) for c in stats]
+        if impl["cand"] != want:
+            a, b = set(impl["cand"]), set(want)
+            ck.diverge("intersection_nan_broken", case,
+                       f"bounding-box candidates of the NaN-broken curves differ from those of their pieces: impl-only "
+                       f"{sorted(a - b)[:4]} pieces-only {sorted(b - a)[:4]}")
+            continue
+        d = match_points(impl["pts"], stats, "impl (NaN-broken curves vs model on the pieces)")
+        if d is not None:
+            ck.diverge("intersection_nan_broken", case, d)
+
+
 def closed_variants(rng, polys, every=3):
     """contours that are already closed (last vertex == first vertex: the code appends the first vertex once more, which
     gives a zero-length edge and a singular system) and contours with a repeated vertex somewhere"""
@@ -1302,9 +1419,10 @@ def _worker(args):
 
 def run_generated(ck, rng, n_pairs, n_poly, n_models, thorough):
     max_seg = 60
-    process_inter(ck, list(random_pair_cases(rng, n_pairs, max_seg)))
-    process_inter(ck, list(lattice_pair_cases(rng, n_pairs)))
-    process_inter(ck, list(degenerate_float_cases(rng, max(n_pairs // 2, 1))))
+    process_inter(ck, list(with_forms(rng, random_pair_cases(rng, n_pairs, max_seg))))
+    process_inter(ck, list(with_forms(rng, lattice_pair_cases(rng, n_pairs))))
+    process_inter(ck, list(with_forms(rng, degenerate_float_cases(rng, max(n_pairs // 2, 1)))))
+    process_inter_nan(ck, list(nan_broken_cases(rng, max(n_pairs // 4, 1), max_seg)))
     polys = [("star", star_polygon(rng)) for _ in range(n_poly)]
     process_design(ck, design_case_list(rng, polys + closed_variants(rng, polys)))
     lat = [("lattice", lattice_polygon(rng)) for _ in range(n_poly)]
@@ -1373,7 +1491,15 @@ def main(ck):
 def replay(ck, payload):
     case = payload["case"]
     ok = True
-    if case["kind"] == "inter":
+    if case["kind"] == "inter_nan":
+        n0 = len(ck.divergences)
+        if ck.driver:
+            process_inter_nan(ck, [case])
+        for d in ck.divergences[n0:]:
+            print("correspondence:", d[2])
+        ok = len(ck.divergences) == n0
+        print("implementation:", impl_inter(case))
+    elif case["kind"] == "inter":
         impl = impl_inter(case)
         bad = oracle_inter(case, impl)
         for pred, detail in bad:
